@@ -102,7 +102,17 @@ type knownFile struct {
 	} `json:"fixed"`
 }
 
+// homeDir is where the committed inputs of the checker live (known_findings.json, seeded/); it is
+// the output directory unless VERIF_HOME says otherwise (scratch runs of the matrix tools).
+func homeDir(outDir string) string {
+	if h := os.Getenv("VERIF_HOME"); h != "" {
+		return h
+	}
+	return outDir
+}
+
 func loadKnown(outDir string) (*knownFile, error) {
+	outDir = homeDir(outDir)
 	var k knownFile
 	b, err := os.ReadFile(filepath.Join(outDir, "known_findings.json"))
 	if err != nil {
@@ -225,7 +235,7 @@ func runCheck(propID, tier, repoDir, outDir string, overlay map[string][]byte, q
 	}
 	var seeds []seedOutcome
 	if tier == "thorough" && overlay == nil {
-		seeds = runSeeds(spec, repoDir, outDir)
+		seeds = runSeeds(spec, repoDir, homeDir(outDir))
 		fired, expected, missed := 0, 0, 0
 		for _, s := range seeds {
 			if s.Fired {
